@@ -158,7 +158,19 @@ pub fn observe(case: &Case) -> Result<Obs, PanicInfo> {
             let dir = scratch_dir();
             let tid = format!("{:?}", std::thread::current().id());
             let tid: String = tid.chars().filter(|c| c.is_ascii_digit()).collect();
-            let path = dir.join(format!("c01-{}.shp", tid));
+            // (by turns a plain name, a name without any extension, a name that is not valid UTF-8)
+            let path = match libs.len() % 3 {
+                1 => dir.join(format!("c01-{}-noext", tid)),
+                #[cfg(unix)]
+                2 => {
+                    use std::os::unix::ffi::OsStrExt;
+                    let mut b = b"c01-\xff\xfe-".to_vec();
+                    b.extend(tid.as_bytes());
+                    b.extend(b".shp");
+                    dir.join(std::ffi::OsStr::from_bytes(&b))
+                }
+                _ => dir.join(format!("c01-{}.shp", tid)),
+            };
             // the path already holds longer files (a shapefile regenerated in place)
             std::fs::write(&path, vec![0xEEu8; 70_000]).expect("prefill");
             std::fs::write(path.with_extension("shx"), vec![0xEEu8; 9_000]).expect("prefill");
@@ -903,6 +915,21 @@ fn enumerate_unit(which: Which, t: &Tables, u: &Unit, ctx: &mut Ctx, tick: &dyn 
                     }
                 }
             }
+            // (ii b) three long parts with more than 2^16 points in total; an empty part inside such a record;
+            //        very many parts
+            if fam != Family::Multipoint {
+                for lens in [vec![30000usize, 30000, 6000], vec![20000, 25000, 21000], vec![6000, 30000, 30000, 5]] {
+                    go(Case { ty, shapes: vec![multi(&lens)], ndev: 0, fin_mask: 0, disk: false }, ctx);
+                }
+                if fam != Family::Polyline {
+                    for lens in [vec![30000usize, 0, 36000], vec![40000, 30000, 0, 4]] {
+                        go(Case { ty, shapes: vec![multi(&lens)], ndev: 0, fin_mask: 0, disk: false }, ctx);
+                    }
+                }
+                for np in [16383usize, 16384, 16385, 20000] {
+                    go(Case { ty, shapes: vec![multi(&vec![2; np])], ndev: 0, fin_mask: 0, disk: false }, ctx);
+                }
+            }
             // (iii) thin rings whose area is smaller than any single edge term
             if fam == Family::Polygon {
                 for n in [1000usize, 8200, 16382, 16383, 16384, 16385, 16386, 16387, 16388, 20000, 32770] {
@@ -1124,7 +1151,7 @@ pub fn check(which: Which, tier: Tier) -> i32 {
             tier,
             level: "model_checking",
             engine: "E2 structure x deviation enumerator on the real ShapeWriter/ShapeReader",
-            rule: "every structure of the builder grammar (per type: vertex counts, part-length vectors, ring templates x declared roles, patch kinds x lengths) x every file sequence (n=1 for all, n=2,3 ordered tuples over the reduced different-size set) x every deviation set of size <= d from the per-dimension float alphabets; plus, for one type per family, EVERY part length from 2 up to the size bound and (Point, PolylineZ) EVERY record count up to the count bound (d = 0), a size ladder of many-part shapes, and every finalize placement around 1-5 writes; polygons with a unit hole at every position of a 3x3 grid, given in both orientations, translated by offsets {2^27, 2^30+1, 10^9, 2^40, -(10^9+7)}^2; measured multi-vertex shapes with measures [real, no-data, ..] and [no-data, .., real] under every single deviation; sizes crossed with values and structure (a special measure / Z at the start, middle, end of a part of 300..20000 points; every ordered pair of two long parts over {260, 300, 1030, 16384, 16390, 20000}; thin rings of about 2^14 vertices whose area is smaller than any edge term); (C02) every history over {write a, write b, finalize} up to the fault-history bound x {with, without .shx} x 13 types with every single one-shot fault and every unordered pair of faults (operation k of .shp / .shx fails once): whenever no fault fired in drop, the .shp up to its declared length is well-formed and holds exactly the shapes whose write returned Ok; distinct = hash of all coordinate bit patterns and structure; non-trivial = >=2 records or >=2 parts or >=1 deviation",
+            rule: "every structure of the builder grammar (per type: vertex counts, part-length vectors, ring templates x declared roles, patch kinds x lengths) x every file sequence (n=1 for all, n=2,3 ordered tuples over the reduced different-size set) x every deviation set of size <= d from the per-dimension float alphabets; plus, for one type per family, EVERY part length from 2 up to the size bound and (Point, PolylineZ) EVERY record count up to the count bound (d = 0), a size ladder of many-part shapes, and every finalize placement around 1-5 writes; polygons with a unit hole at every position of a 3x3 grid, given in both orientations, translated by offsets {2^27, 2^30+1, 10^9, 2^40, -(10^9+7)}^2; measured multi-vertex shapes with measures [real, no-data, ..] and [no-data, .., real] under every single deviation; sizes crossed with values and structure (a special measure / Z at the start, middle, end of a part of 300..20000 points; every ordered pair of two long parts over {260, 300, 1030, 16384, 16390, 20000}; three long parts of more than 2^16 points in total, an empty part inside such a record, shapes of 16383..20000 parts; thin rings of about 2^14 vertices whose area is smaller than any edge term); (C02) every history over {write a, write b, finalize} up to the fault-history bound x {with, without .shx} x 13 types with every single one-shot fault and every unordered pair of faults (operation k of .shp / .shx fails once): whenever no fault fired in drop, the .shp up to its declared length is well-formed and holds exactly the shapes whose write returned Ok; distinct = hash of all coordinate bit patterns and structure; non-trivial = >=2 records or >=2 parts or >=1 deviation",
             bounds: json!({
                 "types": 13,
                 "structures_total": nstructs,
